@@ -79,6 +79,8 @@ def run(ctx: Context) -> None:
     from . import c10 as _c10
     from .common import share_obligations as _share
     _share(ctx, _c10, {'R10.2', 'R10.5'}, 'R16.5')
+    from .common import adopt_foundations as _adopt
+    _adopt(ctx, 'R16.6', ['topology', 'order'], floor=60)
     ctx.assume("hashlib digests and numpy tobytes('C') are deterministic functions of their input bytes")
 
     impls = p.implementations(base, 'hash_geometry')
